@@ -4,7 +4,7 @@ Spec (ECMA-262 7.3 / spec/es5_lines.py): the column of an offset is  offset - st
 `newline_idx` is the list of line-start offsets seen so far (index k = start of line k+1)."""
 import z3
 
-from vf.pyvc.dsl import Contract, Obj, Int, Str, ListOf, Const, OneOf, PObj, PExt, Helper
+from vf.pyvc.dsl import Contract, Obj, Int, Str, ListOf, Const, OneOf, PObj, PExt, Helper, Bool
 
 MODULE = 'calmjs.parse.lexers.es5'
 
@@ -91,7 +91,19 @@ def token_bookkeeping(module):
                     tok.fields.update(type=Str.fresh('tok_type'), value=Str.fresh('tok_value'), lexpos=Int.fresh('tok_lexpos'),
                                       lineno=Int.fresh('tok_lineno'))
                 rec['tok'] = tok
-                inner.fields['token'] = PExt('ply.lex.Lexer.token', lambda e, a, k: tok)
+
+                def ply_token(e, a, k):
+                    # ply hands out the tokens one after the other: a second call gives the NEXT token, not this one again
+                    rec['ply_calls'] = rec.get('ply_calls', 0) + 1
+                    if rec['ply_calls'] == 1:
+                        return tok
+                    nxt = PObj(object, name='tok%d' % rec['ply_calls'])
+                    nxt.fields.update(type=Str.fresh('next_type'), value=Str.fresh('next_value'), lexpos=Int.fresh('next_lexpos'),
+                                      lineno=Int.fresh('next_lineno'))
+                    return nxt
+                inner.fields['token'] = PExt('ply.lex.Lexer.token', ply_token)
+                # the two comment switches are arbitrary: what is handed out does not depend on them
+                o.fields.update(with_comments=Bool.fresh('with_comments'), yield_comments=Bool.fresh('yield_comments'))
 
                 def colno(e, a, k):
                     rec['log'].append(('colno', a[0]))
@@ -108,14 +120,14 @@ def token_bookkeeping(module):
             return SBool(z3.Or(*[t == z3.StringVal(n) for n in names]))
         if kind == 'token':
             req = ['declared_type(the_token().type)']
-            ens = ['result is the_token()', 'call(0, "colno")', 'result.colno is column()', 'calls() <= 2',
+            ens = ['result is the_token()', 'ply_calls() == 1', 'call(0, "colno")', 'result.colno is column()', 'calls() <= 2',
                    'call(1, "update") or (calls() == 1 and lt_free(result.type))']
         else:
             req = []
-            ens = ['result is None', 'calls() == 0']
+            ens = ['result is None', 'calls() == 0', 'ply_calls() == 1']
         cs.append(Contract(
             MODULE + ':Lexer.get_lexer_token', params={'self': LexerSelf()}, requires=req, ensures=ens,
-            env={'the_token': Helper(lambda e: rec['tok']), 'calls': Helper(lambda e: len(rec['log'])),
+            env={'the_token': Helper(lambda e: rec['tok']), 'calls': Helper(lambda e: len(rec['log'])), 'ply_calls': Helper(lambda e: rec.get('ply_calls', 0)),
                  'call': Helper(lambda e, i, what: len(rec['log']) > i and rec['log'][i][0] == what and rec['log'][i][1] is rec['tok']),
                  'column': Helper(lambda e: rec.get('col')),
                  'lt_free': Helper(lambda e, ty: one_of(e, ty, free)), 'declared_type': Helper(lambda e, ty: one_of(e, ty, alltypes))},
